@@ -16,7 +16,7 @@ if os.path.realpath(sd) != os.path.realpath(d):
         if f.startswith("demo"): shutil.copy(os.path.join(sd, f), d)
 meta = json.load(open(os.path.join(sd, "meta.json")))
 import re as _re
-meta["demo_cmd"] = _re.sub(r"/tmp/mut2?-C\d+-out/\d+/", d + "/", meta["demo_cmd"])
+meta["demo_cmd"] = _re.sub(r"/tmp/mut\d?-C\d+-out/\d+/", d + "/", meta["demo_cmd"])
 meta.update({"breaks_property": pid, "confirmed": {k: res[k] for k in ("applies", "existing_tests_pass_with_patch", "demo_fails_with_patch", "demo_passes_without_patch")},
              "what_i_ran": f"tools/seedtest.py {pid} <scratch worktree> <seed dir>: git apply; {meta.get('existing_tests_cmd')}; demo; VERIF_REPO=<worktree> ./check {pid}; revert; demo",
              "check_result": {"rc": res["check_rc"], "lines": res["check_lines"], "detected": res["detected"], "per_seed": res.get("per_seed"),
